@@ -203,6 +203,15 @@ func (p *Pool) MarkUnavailable(ip net.IP) {
 
 	p.unavailable[ip.String()] = struct{}{}
 
+	// Drop the reservation of this address so that it is neither offered to
+	// its previous holder again nor returned to the available list later
+	for mac, allocatedIP := range p.allocated {
+		if allocatedIP.Equal(ip) {
+			delete(p.allocated, mac)
+			break
+		}
+	}
+
 	// Remove from available
 	for i, avail := range p.available {
 		if avail.Equal(ip) {
